@@ -31,7 +31,8 @@ FLOORS = {'cyclic_cases': 100, 'acyclic_cases': 100, 'failure_cases': 100,
           'budget_armed': 200, 'evaluate_entries_seen': 1000,
           'deep_chain_cases': 6, 'derived_models': 50,
           'absolute_cycles': 60, 'linked_workbook_cases': 8,
-          'long_cycles': 10, 'percent_in_cycle': 30}
+          'long_cycles': 10, 'percent_in_cycle': 30,
+          'bare_reference_rings': 30, 'dormant_ring_cases': 8}
 ANCHOR_FUNCS = {
     'xlcalculator/evaluator.py': ['Evaluator.evaluate',
                                   'EvaluatorContext.eval_cell'],
@@ -93,7 +94,10 @@ def cycle_graph(length, tail, closing, sheets, absolute='none',
             elif closing == 'name':
                 names['CYC'] = ('ref', sn, 1, nxt, True, True)
                 target = ('name', 'CYC')
-        cells[(s, 1, i)] = ('f', plus(target, addend or ONE))
+        cells[(s, 1, i)] = ('f', target if addend == 'bare' and
+                            target[0] == 'ref' else
+                            plus(target, ONE if addend in (None, 'bare')
+                                 else addend))
     return cells, names, (s_of(1), 1, 1), total
 
 
@@ -238,10 +242,13 @@ def run(ctx):
                             ['none', 'all', 'col', 'row'])
                     # a percent sign / a text with one in the formulas the
                     # report travels through
-                    addend = [None, ('lit', 0.5, '50%'), None,
-                              ('call', 'LEN', [('lit', '100%d', '"100%d"')])][
-                                  (work // 6) % 4]
-                    if addend is not None:
+                    addend = [None, ('lit', 0.5, '50%'), 'bare',
+                              ('call', 'LEN', [('lit', '100%d', '"100%d"')]),
+                              'bare', None][(work // 6) % 6]
+                    if addend == 'bare':
+                        # every cell of the ring is a bare reference (=A2)
+                        ctx.event('bare_reference_rings')
+                    elif addend is not None:
                         ctx.event('percent_in_cycle')
                     cells, names, start, total = cycle_graph(
                         length, tail, closing, sheets, absolute, addend)
@@ -274,6 +281,59 @@ def run(ctx):
                         judge_cyclic(desc + ' entered mid-cycle',
                                      ('cycle-mid', length, tail, closing,
                                       len(sheets)), wb, model, mid, total)
+
+    # ---- a ring that is dormant at first: its closing link sits in the branch
+    # of an IF that is not taken; every cell is evaluated (values), then the
+    # switch is flipped on the same Evaluator: now it is a cycle; flipped back:
+    # values again ----------------------------------------------------------
+    if sh in (0, 1, 2, 3) or thorough:
+        from xlcalculator import Evaluator
+        for n_ring in (1, 2, 3, 5):
+            for closing in ('ref', 'range'):
+                cells = {'S1': False}
+                for i in range(1, n_ring):
+                    cells[f'A{i}'] = f'=A{i + 1}+1'
+                back = 'A1' if closing == 'ref' else 'SUM(A1:A1)'
+                cells[f'A{n_ring}'] = f'=IF(S1,{back},5)+1'
+                ev = Evaluator(subject.compile_dict(cells))
+                desc = (f'dormant ring of {n_ring} cell(s) closed by {closing} '
+                        f'inside IF(S1,...)')
+                bad = []
+
+                def sweep(tag, expect_cycle):
+                    for i in range(1, n_ring + 1):
+                        rec.arm(budget=4 * (n_ring + 3) ** 2,
+                                depth_budget=n_ring + 4)
+                        ctx.event('budget_armed')
+                        try:
+                            got = subject.outcome_of(
+                                lambda: ev.evaluate(f'Sheet1!A{i}'))
+                        except MonitorAbort as e:
+                            got = ('abort', str(e))
+                        rec.arm()
+                        if expect_cycle:
+                            if not (got[0] == 'raised' and
+                                    'cycle' in got[1].lower()):
+                                bad.append(f'[{tag}] A{i} -> {str(got)[:120]}')
+                        else:
+                            want = ('value', ('num', float(
+                                6 + n_ring - i)))
+                            if got != want:
+                                bad.append(f'[{tag}] A{i} -> {str(got)[:120]}'
+                                           f', expected {want[1]}')
+                sweep('switch off', False)
+                ev.set_cell_value('Sheet1!S1', True)
+                sweep('switch on: a cycle', True)
+                ev.set_cell_value('Sheet1!S1', False)
+                sweep('switch off again', False)
+                ctx.event('cyclic_cases')
+                ctx.event('dormant_ring_cases')
+                ctx.case(('dormant-ring', n_ring, closing, bool(bad)))
+                if bad:
+                    ctx.fail(f'{desc}: ' + '; '.join(bad[:4]),
+                             {'cells': cells, 'problems': bad[:10]},
+                             monitor='cycle-reported',
+                             group=f'dormant:{closing}:{bad[0][:14]}')
 
     # ---- long cycles (the chain back to the start is longer than any small
     # window of "recently entered" cells) ------------------------------------
